@@ -78,6 +78,8 @@ def recognise(text: str):
         return None
     if text.count("@startuml") != 1 or text.count("@enduml") != 1:
         return None
+    if text.index("@enduml") < text.index("@startuml"):
+        return None  # no end tag after the start tag: not a diagram of the subset (abstain)
     body = text.split("@startuml", 1)[1].split("@enduml", 1)[0]
     aliases, comps, arrows = {}, set(), []
     for line in body.split("\n"):
